@@ -218,8 +218,19 @@ fn wrap_leaf(e: &mut syn::Expr, n: &mut usize, want: &dyn Fn(usize) -> bool) {
     }
 }
 fn tail_of_block(b: &mut syn::Block, n: &mut usize, want: &dyn Fn(usize) -> bool) {
+    let before = *n;
+    let mut wrapped_block = false;
     if let Some(syn::Stmt::Expr(e, None)) = b.stmts.last_mut() {
+        let was_block = matches!(e, syn::Expr::Block(_));
         wrap_leaf(e, n, want);
+        wrapped_block = !was_block && *n > before && matches!(e, syn::Expr::Block(_));
+    }
+    // a wrapped tail `{ let r__ = ..; hint; r__ }` directly after a loop body reads as a clause of that loop: separate the two
+    let k = b.stmts.len();
+    if wrapped_block && k >= 2 {
+        if let syn::Stmt::Expr(syn::Expr::ForLoop(_) | syn::Expr::While(_) | syn::Expr::Loop(_), _) = &b.stmts[k - 2] {
+            b.stmts.insert(k - 1, syn::parse_quote!(let vx_sep = ();));
+        }
     }
 }
 
